@@ -112,6 +112,7 @@ def ob_tree(tree, label, agg_none=False):
                                       "for (t, _), d in zip(acts, degs): ov.fuzzy.terms.append(fl.Activated(ov.term(t), d, fl.Minimum()))",
                                       f"rule = fl.Rule.create('if ' + {text!r} + ' then O is a', e); rule.weight = {lit(v['w'])}",
                                       "got = float(rule.activate_with(fl.NormLambda(AND), fl.NormLambda(OR)))",
+                                      "again = float(rule.activate_with(fl.NormLambda(AND), fl.NormLambda(OR)))      # evaluating a rule does not change it",
                                       "def outdeg(term):",
                                       "    ds = [d for (t, _), d in zip(acts, degs) if t == term]",
                                       "    if not ds: return 0.0",
@@ -121,7 +122,7 @@ def ob_tree(tree, label, agg_none=False):
                                       "memb = lambda var, term: outdeg(term) if var == 'O' else mem[(var, term)]",
                                       f"tree = {tree!r}",
                                       f"exp = {lit(v['w'])} * evaluate(tree, lambda p: prop_semantics(p, memb, lambda n: flags[n]))",
-                                      f"verdict(not same(got, exp, 1e-9) or not same(rule.activation_degree, got), 'if ' + {text!r} + ': activation degree %r, grammar semantics %r' % (got, exp))"])
+                                      f"verdict(not same(got, exp, 1e-9) or not same(rule.activation_degree, again) or not same(again, exp, 1e-9), 'if ' + {text!r} + ': activation degree %r, evaluated again %r, grammar semantics %r' % (got, again, exp))"])
 
                 rp = replay_fn(PROPERTY, lab, rbody, key=None)
 
@@ -131,7 +132,8 @@ def ob_tree(tree, label, agg_none=False):
                     rule = fl.Rule.create(f"if {text} then O is a", e)
                     rule.weight = w
                     r = rule.activate_with(fl.NormLambda(AND), fl.NormLambda(OR))
-                    return r, rule.activation_degree
+                    again = rule.activate_with(fl.NormLambda(AND), fl.NormLambda(OR))
+                    return r, rule.activation_degree, again
 
                 def memb(v, t):
                     return out_degree(t) if v == OUT else mem[(v, t)]
@@ -140,10 +142,10 @@ def ob_tree(tree, label, agg_none=False):
                     if p.exc is not None:
                         ob.unexpected(pre, p, lab, ins, rp)
                         continue
-                    got, stored = p.result
+                    got, stored, again = p.result
                     val = rg.evaluate(tree, lambda q: rg.prop_semantics(q, memb, hedge, lambda n: flags[n], core.const(1.0), core.const(0.0)), AND, OR)
                     exp = w * val
-                    ob.prove(pre, p, z3.And(same(got, exp), same(stored, got)), lab, ins, rp)
+                    ob.prove(pre, p, z3.And(same(got, exp), same(stored, again), same(again, exp)), lab, ins, rp)
                     ob.expect_sat(pre, p, same(got, core.const(2.0)), f"{label}/twin")
 
     return run
